@@ -209,14 +209,46 @@ where
             #[cfg(feature = "tracing")]
             debug!(coalesce = %name, "Request executing as leader");
 
+            // The key is registered from here on. Until the leading future owns it (its `Drop`
+            // cancels), this guard does: if the inner `call` panics the registration is removed,
+            // instead of leaving a key no request can ever complete.
+            let mut registration = LeaderRegistration {
+                in_flight: &*self.in_flight,
+                key: Some(key),
+            };
             let future = self.inner.call(request);
+            let key = registration.key.take();
             let in_flight = Arc::clone(&self.in_flight);
 
             CoalesceFuture::Leading {
                 future: Box::pin(future),
-                key: Some(key),
+                key,
                 in_flight,
             }
+        }
+    }
+}
+
+/// Owns a leader's registration while the inner call is being created; removes it on unwind.
+struct LeaderRegistration<'a, K, Res, E>
+where
+    K: Hash + Eq + Clone,
+    Res: Clone,
+    E: Clone,
+{
+    in_flight: &'a InFlight<K, Res, E>,
+    key: Option<K>,
+}
+
+impl<K, Res, E> Drop for LeaderRegistration<'_, K, Res, E>
+where
+    K: Hash + Eq + Clone,
+    Res: Clone,
+    E: Clone,
+{
+    fn drop(&mut self) {
+        if let Some(k) = self.key.take() {
+            self.in_flight.cancel(&k);
         }
     }
 }
